@@ -69,7 +69,10 @@ def main():
         sess = docs.replay_sessions(a.replay_case)
     else:
         sess = docs.build_sessions(sess_tokens, range((len(toks) + 39) // 40))
-        pops = [('main', 220 if quick else 5000, {}), ('explore_chords', 40 if quick else 300, {'profile': 'explore_chords'})]
+        # invisible barlines ('=1-', '=-||'): what is printed for them is C03's business (finding D18); that the normal form is a fixed
+        # point and canonical is claimed for these documents like for any other
+        pops = [('main', 220 if quick else 5000, {}), ('explore_chords', 40 if quick else 300, {'profile': 'explore_chords'}),
+                ('invisible_barlines', 60 if quick else 800, {'profile': 'hidden'})]
         for k, (label, n, kw) in enumerate(pops):
             fixed = label == 'explore_chords'          # a fixed corpus: its failing cases are listed one by one in known_findings.json
             part = docs.build_sessions(dp.sess_c01, [(777000000 + i) if fixed else (a.seed * 1000003 + k * 100000007 + i) for i in range(n)], **kw)
